@@ -8,6 +8,8 @@ package internal
 // partial} for 7 configurations, executed on the real NewBaseExporter chain under the controlled scheduler (virtual time).
 
 import (
+	"reflect"
+	"unsafe"
 	"context"
 	"encoding/binary"
 	"encoding/json"
@@ -128,6 +130,23 @@ func c19Counter(tt *componenttest.Telemetry, name string) int64 {
 	return s
 }
 
+// c19QueueSize reads Size() of the queue inside the QueueBatch sender (unexported field of another package)
+func c19QueueSize(qs any) (int64, bool) {
+	v := reflect.ValueOf(qs)
+	if v.Kind() != reflect.Ptr || v.IsNil() {
+		return 0, false
+	}
+	f := v.Elem().FieldByName("queue")
+	if !f.IsValid() {
+		return 0, false
+	}
+	q, ok := reflect.NewAt(f.Type(), unsafe.Pointer(f.UnsafeAddr())).Elem().Interface().(interface{ Size() int64 })
+	if !ok {
+		return 0, false
+	}
+	return q.Size(), true
+}
+
 type c19Case struct {
 	Config string   `json:"config"`
 	Sizes  []int    `json:"request_sizes"`
@@ -212,6 +231,14 @@ func c19Body(c *c19Case, o *c19Obs) func() {
 			o.capGauge = c19Counter(tt, "otelcol_exporter_queue_capacity")
 			if o.capGauge != capacity {
 				o.violations = append(o.violations, fmt.Sprintf("queue capacity gauge reports %d, configured capacity is %d", o.capGauge, capacity))
+			}
+			// the size gauge against the queue's own Size() at the same instant (Size() itself is C02's subject)
+			if sz, ok := c19QueueSize(be.QueueSender); ok {
+				if g := c19Counter(tt, "otelcol_exporter_queue_size"); g != sz {
+					o.violations = append(o.violations, fmt.Sprintf("queue size gauge reports %d, the queue's size is %d", g, sz))
+				}
+			} else {
+				o.violations = append(o.violations, "harness: queue not reachable")
 			}
 		}
 		// let the consumers work (a retry wait of 1 virtual second may be pending when shutdown arrives: by design of the
